@@ -308,6 +308,7 @@ func elgamalAll(r *runner, c counts) {
 	for i := 0; i < c.eg; i++ {
 		elgamalCase(r, c, k, i)
 		elgamalCase(r, c, b, i)
+		r.maybeFlush()
 	}
 }
 
